@@ -220,6 +220,9 @@ static void s_monitor(const char *name, struct aws_hash_table *t) {
     if (!bad && st->entry_count > st->max_load) {
         bad = "entry_count>max_load";
     }
+    if (!bad && !aws_hash_table_is_valid(t)) {
+        bad = "aws_hash_table_is_valid-rejects-a-well-formed-table";
+    }
     if (bad) {
         printf("P MONITOR %s %s\n", name, bad);
     }
@@ -304,11 +307,164 @@ static void s_stale(int tab, int keep) {
     }
 }
 
+static const int s_poison = 0;
+
+/* ---- tables keyed through the library's own hash / equality pairs ("typed" table, one at a time) and direct pair
+ * checks.  kinds: str (aws_string: aws_hash_string / aws_hash_callback_string_eq / aws_hash_callback_string_destroy),
+ * cstr (aws_hash_c_string / aws_hash_callback_c_str_eq), cur (aws_hash_byte_cursor_ptr / aws_byte_cursor_eq),
+ * u64 (aws_hash_uint64_t_by_identity / aws_hash_compare_uint64_t_eq), ptr (aws_hash_ptr / aws_ptr_eq). ---- */
+enum tkind { TK_NONE, TK_STR, TK_CSTR, TK_CUR, TK_U64, TK_PTR };
+static struct aws_hash_table s_tt;
+static enum tkind s_tt_kind;
+/* harness-owned key storage (cstr / cur / u64 kinds), freed at case reset */
+static void **s_arena;
+static size_t s_arena_n, s_arena_cap, s_arena_rot;
+static void *s_arena_alloc(size_t n) {
+    if (s_arena_n == s_arena_cap) {
+        s_arena_cap = s_arena_cap ? 2 * s_arena_cap : 64;
+        s_arena = realloc(s_arena, s_arena_cap * sizeof(void *));
+        HC_CHECK(s_arena);
+    }
+    void *p = malloc(n ? n : 1);
+    HC_CHECK(p);
+    s_arena[s_arena_n++] = p;
+    return p;
+}
+static void s_arena_reset(void) {
+    for (size_t i = 0; i < s_arena_n; ++i) {
+        free(s_arena[i]);
+    }
+    s_arena_n = 0;
+}
+static enum tkind s_parse_kind(const char *s) {
+    return !strcmp(s, "str") ? TK_STR : !strcmp(s, "cstr") ? TK_CSTR : !strcmp(s, "cur") ? TK_CUR
+         : !strcmp(s, "u64") ? TK_U64 : !strcmp(s, "ptr") ? TK_PTR : TK_NONE;
+}
+static bool s_cursor_eq_cb(const void *a, const void *b) {
+    return aws_byte_cursor_eq(a, b);
+}
+/* make a key object of the given kind from the token; `owned` = the table will own (and destroy) it */
+static const void *s_make_key(enum tkind k, const char *tok, bool *needs_destroy) {
+    *needs_destroy = false;
+    if (k == TK_U64) {
+        uint64_t *p = s_arena_alloc(sizeof(uint64_t));
+        *p = strtoull(tok, NULL, 16);
+        return p;
+    }
+    if (k == TK_PTR) {
+        return (const void *)(uintptr_t)strtoull(tok, NULL, 16);
+    }
+    size_t len;
+    uint8_t *bytes = hc_hex_decode(tok, &len);
+    const void *res;
+    if (k == TK_STR) {
+        res = aws_string_new_from_array(hc_allocator(), bytes, len);
+        HC_CHECK(res);
+        *needs_destroy = true;
+    } else {
+        size_t off = (s_arena_rot++) & 3; /* every copy of a key lives at another alignment */
+        uint8_t *buf = s_arena_alloc(len + 8);
+        memset(buf, 0xC3, len + 8);
+        memcpy(buf + off, bytes, len);
+        if (k == TK_CSTR) {
+            buf[off + len] = 0;
+            res = buf + off;
+        } else {
+            struct aws_byte_cursor *c = s_arena_alloc(sizeof(*c));
+            c->ptr = len ? buf + off : NULL;
+            c->len = len;
+            res = c;
+        }
+    }
+    free(bytes);
+    return res;
+}
+static void s_fmt_tkey(char *out, size_t cap, enum tkind k, const void *key) {
+    if (k == TK_U64) {
+        snprintf(out, cap, "%" PRIx64, *(const uint64_t *)key);
+    } else if (k == TK_PTR) {
+        snprintf(out, cap, "%" PRIx64, (uint64_t)(uintptr_t)key);
+    } else {
+        const uint8_t *p;
+        size_t n;
+        if (k == TK_STR) {
+            p = aws_string_bytes(key);
+            n = ((const struct aws_string *)key)->len;
+        } else if (k == TK_CSTR) {
+            p = key;
+            n = strlen(key);
+        } else {
+            p = ((const struct aws_byte_cursor *)key)->ptr;
+            n = ((const struct aws_byte_cursor *)key)->len;
+        }
+        if (n == 0) {
+            snprintf(out, cap, "-");
+        } else {
+            size_t w = 0;
+            for (size_t i = 0; i < n && w + 3 < cap; ++i) {
+                w += (size_t)snprintf(out + w, cap - w, "%02x", p[i]);
+            }
+        }
+    }
+}
+static struct slist s_tc;
+static void s_typed_state(void) {
+    /* contents through the public iterator, sorted; count; structural monitor with the table's own hash function */
+    s_tc.n = 0;
+    size_t visited = 0;
+    for (struct aws_hash_iter it = aws_hash_iter_begin(&s_tt); !aws_hash_iter_done(&it); aws_hash_iter_next(&it)) {
+        char kb[40], vb[48], line[64];
+        s_fmt_tkey(kb, sizeof kb, s_tt_kind, it.element.key);
+        s_fmt_val(vb, it.element.value);
+        snprintf(line, sizeof line, "%.30s=%s", kb, vb);
+        sl_push(&s_tc, line);
+        ++visited;
+    }
+    char pre[48];
+    snprintf(pre, sizeof pre, "P TC n=%zu", aws_hash_table_get_entry_count(&s_tt));
+    sl_print(pre, &s_tc, true);
+    struct hash_table_state *st = s_tt.p_impl;
+    const char *bad = NULL;
+    size_t occ = 0;
+    for (size_t i = 0; i < st->size; ++i) {
+        struct hash_table_entry *e = &st->slots[i];
+        if (!e->hash_code) {
+            continue;
+        }
+        ++occ;
+        uint64_t want = e->element.key ? st->hash_fn(e->element.key) : 42;
+        if (e->element.key && !want) {
+            want = 1;
+        }
+        if (e->hash_code != want) {
+            bad = "stored-hash-differs-from-hash-of-key";
+        }
+        size_t d = (size_t)(i - e->hash_code) & st->mask;
+        if (d > 0) {
+            struct hash_table_entry *p = &st->slots[(i - 1) & st->mask];
+            if (!p->hash_code || ((size_t)(((i - 1) & st->mask) - p->hash_code) & st->mask) + 1 < d) {
+                bad = "robin-hood";
+            }
+        }
+    }
+    if (occ != st->entry_count || visited != occ || st->entry_count > st->max_load || !aws_hash_table_is_valid(&s_tt)) {
+        bad = "count / is_valid";
+    }
+    if (bad) {
+        printf("P MONITOR typed-table %s\n", bad);
+    }
+}
+
 static void s_reset(void) {
     s_quiet = true;
     for (int i = 0; i < NTAB; ++i) {
         aws_hash_table_clean_up(&s_tab[i]);
     }
+    if (s_tt_kind != TK_NONE) {
+        aws_hash_table_clean_up(&s_tt);
+        s_tt_kind = TK_NONE;
+    }
+    s_arena_reset();
     s_quiet = false;
     memset(s_hash, 0, sizeof s_hash);
     for (int i = 0; i < NITER; ++i) {
@@ -336,6 +492,9 @@ static void s_print_iter(struct aws_hash_iter *it) {
             puts("P iter badstatus");
     }
     printf("W iter slot=%zu limit=%zu\n", it->slot, it->limit);
+    if (!aws_hash_iter_is_valid(it)) {
+        puts("P MONITOR aws_hash_iter_is_valid rejects an iterator the API just produced");
+    }
 }
 
 /* foreach callback: flag word per ident */
@@ -551,8 +710,12 @@ int main(void) {
                 puts("P nil");
                 continue;
             }
-            struct aws_hash_element *el = NULL;
+            struct aws_hash_element *el = (struct aws_hash_element *)&s_poison; /* a miss must store NULL */
             aws_hash_table_find(&s_tab[a], key, &el);
+            if (el == (struct aws_hash_element *)&s_poison) {
+                puts("P MONITOR find left *p_elem untouched");
+                el = NULL;
+            }
             if (el) {
                 char bb[128];
                 s_fmt_kv(bb, el->key, el->value);
@@ -587,8 +750,12 @@ int main(void) {
                 puts("P nil");
                 continue;
             }
-            struct aws_hash_element *el = NULL;
+            struct aws_hash_element *el = (struct aws_hash_element *)&s_poison;
             aws_hash_table_find(&s_tab[a], key, &el);
+            if (el == (struct aws_hash_element *)&s_poison) {
+                puts("P MONITOR find left *p_elem untouched");
+                el = NULL;
+            }
             if (!el) {
                 puts("P remel 0");
             } else {
@@ -726,6 +893,129 @@ int main(void) {
             sl_print("P V", &s_visits, true);
             sl_print("W V", &ordered, false);
             s_state_lines(t[1], &s_tab[a]);
+        } else if (!strcmp(t[0], "tinit") && n == 3) {
+            enum tkind k = s_parse_kind(t[1]);
+            if (k == TK_NONE) {
+                puts("bad-op");
+                continue;
+            }
+            if (s_tt_kind != TK_NONE) {
+                puts("P tinit refused");
+                continue;
+            }
+            int rc = aws_hash_table_init(
+                &s_tt,
+                hc_allocator(),
+                hc_parse_size(t[2]),
+                k == TK_STR    ? aws_hash_string
+                : k == TK_CSTR ? aws_hash_c_string
+                : k == TK_CUR  ? aws_hash_byte_cursor_ptr
+                : k == TK_U64  ? aws_hash_uint64_t_by_identity
+                               : aws_hash_ptr,
+                k == TK_STR    ? aws_hash_callback_string_eq
+                : k == TK_CSTR ? aws_hash_callback_c_str_eq
+                : k == TK_CUR  ? s_cursor_eq_cb
+                : k == TK_U64  ? aws_hash_compare_uint64_t_eq
+                               : aws_ptr_eq,
+                k == TK_STR ? aws_hash_callback_string_destroy : NULL,
+                NULL);
+            HC_CHECK(rc == AWS_OP_SUCCESS);
+            s_tt_kind = k;
+            puts("P tinit OK");
+            s_typed_state();
+        } else if (!strcmp(t[0], "tput") && n == 3 && s_parse_val(t[2], &val)) {
+            if (s_tt_kind == TK_NONE) {
+                puts("P nil");
+                continue;
+            }
+            bool own;
+            const void *k = s_make_key(s_tt_kind, t[1], &own);
+            int created = -1;
+            HC_CHECK(aws_hash_table_put(&s_tt, k, val, &created) == AWS_OP_SUCCESS);
+            printf("P tput created=%d\n", created);
+            s_typed_state();
+        } else if ((!strcmp(t[0], "tfind") || !strcmp(t[0], "trem")) && n == 2) {
+            if (s_tt_kind == TK_NONE) {
+                puts("P nil");
+                continue;
+            }
+            bool own;
+            const void *k = s_make_key(s_tt_kind, t[1], &own); /* a fresh, equal key object (other address / alignment) */
+            if (!strcmp(t[0], "tfind")) {
+                struct aws_hash_element *el = (struct aws_hash_element *)&s_poison;
+                aws_hash_table_find(&s_tt, k, &el);
+                HC_CHECK(el != (struct aws_hash_element *)&s_poison);
+                if (el) {
+                    char kb[40], vb[48];
+                    s_fmt_tkey(kb, sizeof kb, s_tt_kind, el->key);
+                    s_fmt_val(vb, el->value);
+                    printf("P tfind %.30s=%s\n", kb, vb);
+                } else {
+                    puts("P tfind none");
+                }
+            } else {
+                int present = -1;
+                HC_CHECK(aws_hash_table_remove(&s_tt, k, NULL, &present) == AWS_OP_SUCCESS);
+                printf("P trem present=%d\n", present);
+                s_typed_state();
+            }
+            if (own) {
+                aws_string_destroy((void *)k);
+            }
+        } else if (!strcmp(t[0], "tclean") && n == 1) {
+            if (s_tt_kind == TK_NONE) {
+                puts("P nil");
+                continue;
+            }
+            aws_hash_table_clean_up(&s_tt);
+            s_tt_kind = TK_NONE;
+            puts("P tclean");
+        } else if (!strcmp(t[0], "pair") && n == 4) {
+            /* the pair itself: equality as the callback sees it, and whether the two hashes agree */
+            enum tkind k = s_parse_kind(t[1]);
+            if (k == TK_NONE) {
+                puts("bad-op");
+                continue;
+            }
+            bool o1, o2;
+            const void *a1 = s_make_key(k, t[2], &o1), *b1 = s_make_key(k, t[3], &o2);
+            bool eq, heq;
+            switch (k) {
+                case TK_STR:
+                    eq = aws_hash_callback_string_eq(a1, b1);
+                    heq = aws_hash_string(a1) == aws_hash_string(b1);
+                    break;
+                case TK_CSTR:
+                    eq = aws_hash_callback_c_str_eq(a1, b1);
+                    heq = aws_hash_c_string(a1) == aws_hash_c_string(b1);
+                    break;
+                case TK_CUR:
+                    eq = aws_byte_cursor_eq(a1, b1);
+                    heq = aws_hash_byte_cursor_ptr(a1) == aws_hash_byte_cursor_ptr(b1);
+                    break;
+                case TK_U64:
+                    eq = aws_hash_compare_uint64_t_eq(a1, b1);
+                    heq = aws_hash_uint64_t_by_identity(a1) == aws_hash_uint64_t_by_identity(b1);
+                    break;
+                default:
+                    eq = aws_ptr_eq(a1, b1);
+                    heq = aws_hash_ptr(a1) == aws_hash_ptr(b1);
+                    break;
+            }
+            printf("P pair eq=%d hasheq=%d\n", (int)eq, (int)heq);
+            if (k == TK_U64) {
+                printf("W pair u64hash=%016" PRIx64 "\n", aws_hash_uint64_t_by_identity(a1));
+            }
+            if (o1) {
+                aws_string_destroy((void *)a1);
+            }
+            if (o2) {
+                aws_string_destroy((void *)b1);
+            }
+        } else if (!strcmp(t[0], "lowertab") && n == 1) {
+            fputs("P lowertab ", stdout);
+            hc_put_hex(aws_lookup_table_to_lower_get(), 256);
+            putchar('\n');
         } else {
             puts("bad-op");
         }
